@@ -258,6 +258,7 @@ static struct {
     const char *path_ptr; char *path_copy; char **argv_ptr, **argv_copy, **envp_ptr, **envp_copy; char **environ_ptr; char **environ_copy;
     int path_same_ptr, path_eq, argv_same_ptr, argv_eq, envp_same_ptr, envp_eq, environ_same_ptr, environ_eq, kind_ok;
 } R;
+static int pre_errno = 0;
 static int snapshot_at_entry = 1, want_digest = 0, lean = 0;
 static size_t lean_log_off = 0, lean_devlog_off = 0, lean_sock_off = 0;
 static void lean_report(void) {
@@ -303,7 +304,7 @@ static void do_call(char **tok, int ntok) {
 #ifdef VERIF_HEAPTRACK
     live0 = ht_live; bytes0 = ht_bytes; ht_on = 1;
 #endif
-    errno = 0;
+    errno = pre_errno;      /* the caller's ambient errno */
     int r = R.is_execve ? execve(path, argv, envp) : execv(path, argv);
     int e = errno;
 #ifdef VERIF_HEAPTRACK
@@ -371,6 +372,7 @@ int main(int argc, char **argv) {
         }
         else if (!strcmp(tok[0], "noentry")) snapshot_at_entry = 0;
         else if (!strcmp(tok[0], "lean")) lean = atoi(tok[1]);
+        else if (!strcmp(tok[0], "errno")) pre_errno = atoi(tok[1]);
         else if (!strcmp(tok[0], "setenv")) { char *k = mkstr(tok[1]); char *v = mkstr(tok[2]); setenv(k, v, 1); free(k); free(v); }
         else if (!strcmp(tok[0], "mkdir")) { char p[3100]; snprintf(p, sizeof p, "%s/%s", W, tok[1]); mkdir(p, 0755); }
         else if (!strcmp(tok[0], "lsdir")) { char p[3100]; snprintf(p, sizeof p, "%s/%s", W, tok[1]); DIR *d = opendir(p); struct dirent *e; out("{\"lsdir\":["); int first = 1;
